@@ -95,7 +95,9 @@ structure Scenario where
   earlyMs : Nat := 0
 
 def parseMode : String → Option C14.TcpMode
-  | "full" => some .full | "half" => some .half | "idle" => some .idle | "cclose" => some .cclose | _ => none
+  | "full" => some .full | "half" => some .half | "idle" => some .idle | "cclose" => some .cclose
+  | "slow" => some .cclose   -- the collector never closes; it only starts reading late (nothing the specification sees)
+  | _ => none
 
 def parseSendList (tok : String) : Option (List (Nat × Desc)) :=
   if tok == "-" then some []
